@@ -2,6 +2,8 @@ package simkit
 
 import (
 	"fmt"
+	"os"
+	"runtime"
 	"runtime/debug"
 	"testing"
 	"testing/cryptotest"
@@ -68,6 +70,11 @@ func Execute(t *testing.T, p *Property, seed uint64, tier string, tape []int, ke
 				if e := recover(); e != nil {
 					if r.Infra == "" && r.viol == nil {
 						r.Infra = fmt.Sprintf("bubble panic: %v", e)
+						if os.Getenv("VERIF_DEBUG") != "" {
+							buf := make([]byte, 1<<20)
+							buf = buf[:runtime.Stack(buf, true)]
+							r.Infra += "\n" + string(buf)
+						}
 					}
 				}
 			}()
